@@ -322,14 +322,20 @@ def history_task(item):
     return out
 
 
+# very short end times (h_t of order h_x^2 / 32): the kernel has decayed to nothing across the parameter interval but NOT across the
+# closing seam / around a corner - only the elements whose aspect passes the filter take part (the finest space level)
+SHORT_T = {'quick': [('UnitSquare', (0., 2.0**-9), 0, 2, ''), ('UnitSquare', (0., 2.0**-11), 0, 3, ''), ('Circle', (0., 2.0**-9), 0, 3, '')],
+           'thorough': [(c, (0., 2.0**-9), 1, 2, '') for c in ('UnitSquare', 'LShape', 'UnitInterval')] + [('UnitSquare', (0., 2.0**-11), 0, 3, ''),
+                        ('Circle', (0., 2.0**-9), 0, 3, ''), ('PiSquare', (0., 2.0**-9), 0, 2, ''), ('UnitSquare', (0., 2.0**-9, 1.), 0, 2, '')]}
 LAYER_B = {
     'quick': [(c, (0., 1.), 1, 2, '') for c in CURVES] + [(c, (0., 0.125), 0, 2, '') for c in ('UnitSquare', 'Circle')]
              + [(c, (0., 0.3, 1.), 0, 1, '') for c in ('UnitSquare', 'LShape')]
              + [(c, (0., 1., 2.), 1, 1, '') for c in ('UnitSquare', 'Circle')]
-             + [(c, (0., 1.), 2, 1, '') for c in ('UnitSquare', 'Circle')],  # time level difference 2: strictly nested time intervals
+             + [(c, (0., 1.), 2, 1, '') for c in ('UnitSquare', 'Circle')]  # time level difference 2: strictly nested time intervals
+             + SHORT_T['quick'],
     'thorough': [(c, (0., 1.), 2, 3, '') for c in CURVES] + [(c, (0., 1., 2.), 1, 2, '') for c in CURVES]
                 + [(c, (0., 0.125), 1, 2, '') for c in CURVES] + [(c, (0., 0.3, 1.), 1, 2, '') for c in CURVES]
-                + [('LShape', (0., 1.), 1, 2, 'driver')],
+                + [('LShape', (0., 1.), 1, 2, 'driver')] + SHORT_T['thorough'],
 }
 NAMED = ['identical', 'nested', 'touching', 'seam-touching', 'seam-corner', 'corner', 'disjoint-same-side',
          'disjoint-other-side', 'disjoint-nearer-through-seam']
